@@ -188,6 +188,7 @@ class Channel(object):
         self.result = None
         self.exc = None
         self.plan = "return"
+        self.gen = None
 
     def hook(self, loc):
         self.calls += 1
@@ -198,6 +199,16 @@ class Channel(object):
         if self.plan == "raise_base":
             self.exc = KeyboardInterrupt("body interrupt")
             raise self.exc
+        if self.plan == "return_leaky":
+            # the function returns while an action it entered (through a plain generator it keeps as a cursor) is still current
+            import eliot as _eliot
+
+            def cursor():
+                with _eliot.start_action(action_type="leaky:cursor"):
+                    yield 1
+            self.gen = cursor()
+            next(self.gen)
+
         def show(v):
             # a one-shot iterator handed to the function is consumed HERE, by the function body: its content must still be there
             if hasattr(v, "__next__"):
@@ -287,9 +298,15 @@ def one(seed, i, res, tape):
 
     shared = [None]
 
+    positional = rng.random() < 0.2
+
     def deco(f):
         if optkind == "bare":
             return log_call(f)
+        if positional:
+            # the options passed positionally, in their documented order: (wrapped_function, action_type, include_args, include_result)
+            res["counters"]["decorations_with_positional_options"] = res["counters"].get("decorations_with_positional_options", 0) + 1
+            return log_call(f, opts.get("action_type"), opts.get("include_args"), opts.get("include_result", True))
         if shared[0] is None:
             # a decorator object kept in a variable and applied to several functions: first to a bystander, then to the target
             shared[0] = log_call(**{k: v for k, v in opts.items() if k != "include_args"}) if "include_args" in opts else log_call(**opts)
@@ -332,7 +349,7 @@ def one(seed, i, res, tape):
         args, kwargs = gen_args(rng, sig, valid)
         if flavour == "stacked" and rng.random() < 0.5 and "retries" not in all_names(sig):
             kwargs["retries"] = rng.randint(0, 9)
-        plan = rng.choice(["return", "return", "raise", "raise_base"])
+        plan = rng.choice(["return", "return", "raise", "raise_base", "return_leaky"])
         chan_u.reset()
         chan_d.reset()
         chan_u.plan = chan_d.plan = plan
@@ -343,8 +360,20 @@ def one(seed, i, res, tape):
             args = list(args)
             args[rng.randrange(len(args))] = iter([1, 2, 3])
             res["counters"]["iterator_arguments"] = res["counters"].get("iterator_arguments", 0) + 1
+        import contextvars
+
+        def in_own_context(fn, chan, a, kw):
+            # (the leaked action must not outlive the call: run it in a context of its own and close the cursor there)
+            def run():
+                try:
+                    return fn(*a, **kw)
+                finally:
+                    if chan.gen is not None:
+                        chan.gen.close()
+                        chan.gen = None
+            return contextvars.copy_context().run(run) if plan == "return_leaky" else fn(*a, **kw)
         try:
-            ru = und(*copy.deepcopy(args), **copy.deepcopy(kwargs))
+            ru = in_own_context(und, chan_u, copy.deepcopy(args), copy.deepcopy(kwargs))
             ou = ("ret", ru)
         except TypeError as e:
             ou = ("typeerror", e) if chan_u.calls == 0 else ("raise", e)
@@ -359,7 +388,7 @@ def one(seed, i, res, tape):
                 try:
                     raise KeyError("unrelated, being handled by the caller")
                 except KeyError:
-                    rd = dec(*copy.deepcopy(args), **copy.deepcopy(kwargs))
+                    rd = in_own_context(dec, chan_d, copy.deepcopy(args), copy.deepcopy(kwargs))
             elif r_ctx < 0.2:
                 # the caller is inside an action that was started with a logger object of its own: the decorated call still logs
                 # through the default logger to the registered destinations
@@ -367,15 +396,16 @@ def one(seed, i, res, tape):
                 import eliot as _eliot
                 res["counters"]["calls_inside_foreign_logger_action"] = res["counters"].get("calls_inside_foreign_logger_action", 0) + 1
                 with _eliot.start_action(_Sink(), "c18:outer"):
-                    rd = dec(*copy.deepcopy(args), **copy.deepcopy(kwargs))
+                    rd = in_own_context(dec, chan_d, copy.deepcopy(args), copy.deepcopy(kwargs))
             else:
-                rd = dec(*copy.deepcopy(args), **copy.deepcopy(kwargs))
+                rd = in_own_context(dec, chan_d, copy.deepcopy(args), copy.deepcopy(kwargs))
             od = ("ret", rd)
         except TypeError as e:
             od = ("typeerror", e) if chan_d.calls == 0 else ("raise", e)
         except BaseException as e:
             od = ("raise", e)
-        msgs = [e["m"] for e in tape.entries[before:] if e["k"] == "msg" and e["m"].get("message_type") != "eliot:destination_failure"]
+        msgs = [e["m"] for e in tape.entries[before:] if e["k"] == "msg" and e["m"].get("message_type") != "eliot:destination_failure"
+                and e["m"].get("action_type") != "leaky:cursor"]
         ncalls += 1
         desc = "%s(%s) args=%r kwargs=%r plan=%s opts=%s" % (flavour, render_params(sig), args, kwargs, plan, opts)
         if od[0] == "raise" and od[1] is not chan_d.exc:
